@@ -57,3 +57,7 @@ package utility
 //@   option trusted
 //@   ensures result != nil && fresh(result) && (number != nil ==> big(result) == fmtRocket(old(big(number)), decimal))
 //@   modifies nothing
+
+//@ func IsEmptyByteSlice
+//@   option trusted
+//@   modifies nothing
